@@ -7,5 +7,6 @@ for id in $(jq -r '.checks[].property_id' MANIFEST.json); do
   out=$(./check "$id" "$TIER" 2>&1); rc=$?
   e=$(( $(date +%s) - s ))
   echo "$id rc=$rc ${e}s $(echo "$out" | grep -c '^KNOWN-FINDING') known; $(echo "$out" | grep "^$id $TIER:" | tail -1 | sed 's/.*evaluations=/evaluations=/')"
-  [ $rc -ne 0 ] && echo "$out" | grep -A3 'VIOLATION\|HARNESS-ERROR' | head -20
+  if [ $rc -ne 0 ]; then bad=1; echo "$out" | grep -A3 'VIOLATION\|HARNESS-ERROR\|ENGINE-ERROR' | head -20; fi
 done
+exit ${bad:-0}
